@@ -5,6 +5,17 @@ returns, per event, the raw bytes every client received and which sockets the bu
   C.<c>         connect + authenticate a raw client
   D.<c>         the client closes its socket
   S.<c>.<hex>   the client writes these bytes (one complete message)
+  A.<hex name>.<hex error>   the process the bus started for <name> has failed (service file with
+                Exec=/bin/false): wait until the bus has told the writers of the kept messages
+
+Activatable names come with the history: [name, "hold"] gets a service file whose process never claims
+the name (Exec=/bin/true: exit status 0 is ignored by the bus, the activation stays pending until its
+25 s timeout; a long-lived child would keep the babysitter process alive, which holds copies of all the
+daemon's sockets, so that a connection closed by the bus would not see EOF), so messages are kept until
+some client requests the name; [name, "fail"] one
+whose process exits with status 1.  The bus reports such a failure whenever it notices it, so error
+replies named org.freedesktop.DBus.Error.Spawn.* are withheld from the step in which they happen to arrive
+and reported with the A event that the generator places right after the message.
 
 Conventions the generator keeps: client 0 is the observer (it connects, says Hello and adds a match
 for NameOwnerChanged first, never sends junk, never disconnects); generated serials are in
@@ -16,7 +27,7 @@ trip (answered with the id, or with AccessDenied before Hello: either way a repl
 other live client does; a monitor cannot send, so it reads until it has seen the copy of the
 observer's GetId reply, which the observer requests last.  A disconnect of a registered client is
 awaited through NameOwnerChanged at the observer."""
-import os, sys, time
+import os, shutil, sys, tempfile, time
 sys.path.insert(0, os.path.dirname(os.path.abspath(__file__)))
 import rawbus
 from rawbus import Msg, METHOD_CALL, METHOD_RETURN, ERROR, SIGNAL, F_PATH, F_INTERFACE, F_MEMBER, F_ERROR_NAME, \
@@ -31,10 +42,22 @@ def is_sync(m):
     return m.serial >= HIGH or m.fields.get(F_REPLY_SERIAL, 0) >= HIGH
 
 
+def is_spawn_error(m):
+    return m.mtype == ERROR and m.fields.get(F_ERROR_NAME, "").startswith("org.freedesktop.DBus.Error.Spawn.")
+
+
 class Runner:
-    def __init__(self, exe, maxc):
+    def __init__(self, exe, maxc, acts=()):
         limits = '<limit name="max_completed_connections">%d</limit>' % maxc
-        self.d = rawbus.Daemon(exe, limits=limits)
+        self.svcdir = None
+        servicedirs = ""
+        if acts:
+            self.svcdir = tempfile.mkdtemp(prefix="verif_c03_svc_")
+            for name, kind in acts:
+                with open(os.path.join(self.svcdir, name + ".service"), "w") as f:
+                    f.write("[D-BUS Service]\nName=%s\nExec=%s\n" % (name, "/bin/true" if kind == "hold" else "/bin/false"))
+            servicedirs = "<servicedir>%s</servicedir>" % self.svcdir
+        self.d = rawbus.Daemon(exe, limits=limits, servicedirs=servicedirs)
         self.cl = {}           # c -> RawConn
         self.name = {}         # c -> unique name seen in the Hello reply
         self.monitors = set()
@@ -133,11 +156,11 @@ class Runner:
                     self.monitor_sync(mon, last)
         return closed
 
-    def collect(self):
+    def collect(self, with_spawn_errors=False):
         got = {}
         for c, conn in self.cl.items():
-            msgs = [m for m in conn.inbox if not is_sync(m)]
-            conn.inbox = []
+            msgs = [m for m in conn.inbox if not is_sync(m) and (with_spawn_errors or not is_spawn_error(m))]
+            conn.inbox = [m for m in conn.inbox if is_spawn_error(m) and not with_spawn_errors]
             if msgs:
                 got[c] = [m.raw.hex() for m in msgs]
         return got
@@ -145,6 +168,20 @@ class Runner:
     def step(self, ev):
         kind, rest = ev[0], ev[2:]
         closed = []
+        if kind == "A":
+            t_end = time.time() + 6
+            while time.time() < t_end and not any(is_spawn_error(m) for conn in self.cl.values() for m in conn.inbox):
+                for conn in list(self.cl.values()):
+                    if not conn.closed:
+                        conn._pump(0.01)
+            closed = self.settle(0)
+            got = self.collect(with_spawn_errors=True)
+            for c in closed:
+                self.cl[c].close()
+                del self.cl[c]
+                self.name.pop(c, None)
+                self.monitors.discard(c)
+            return {"recv": got, "closed": sorted(closed)}
         if kind == "C":
             c = int(rest)
             if c in self.cl:
@@ -214,12 +251,15 @@ class Runner:
     def stop(self):
         for conn in self.cl.values():
             conn.close()
-        return self.d.stop()
+        r = self.d.stop()
+        if self.svcdir:
+            shutil.rmtree(self.svcdir, ignore_errors=True)
+        return r
 
 
-def run_history(exe, maxc, events):
+def run_history(exe, maxc, events, acts=()):
     """returns (per-event results, final probe, (rc, stderr) of the daemon, error text or None)"""
-    r = Runner(exe, maxc)
+    r = Runner(exe, maxc, acts)
     out, probe, err = [], None, None
     try:
         for ev in events:
@@ -234,6 +274,6 @@ def run_history(exe, maxc, events):
 def run_chunk(args):
     exe, cases = args
     res = []
-    for idx, maxc, events in cases:
-        res.append((idx,) + run_history(exe, maxc, events))
+    for idx, maxc, events, acts in cases:
+        res.append((idx,) + run_history(exe, maxc, events, acts))
     return res
